@@ -1,5 +1,5 @@
 """registry.py — property id -> check function(prop, tier, seed, replay) -> exit code"""
-import props_map, props_ext, props_conv, props_dbg, props_sub, props_c14, props_acc, props_pool, props_arr
+import props_map, props_ext, props_conv, props_dbg, props_sub, props_c14, props_acc, props_pool, props_arr, props_thr
 
 CHECKS = {}
 for p in ("C01", "C02", "C05", "C07", "C13"):
@@ -13,3 +13,4 @@ CHECKS["C14"] = lambda prop, tier, seed, replay: props_c14.run_property(prop, ti
 CHECKS["C03"] = lambda prop, tier, seed, replay: props_acc.run_property(prop, tier, seed, replay=replay)
 CHECKS["C11"] = lambda prop, tier, seed, replay: props_pool.run_property(prop, tier, seed, replay=replay)
 CHECKS["C12"] = lambda prop, tier, seed, replay: props_arr.run_property(prop, tier, seed, replay=replay)
+CHECKS["C19"] = lambda prop, tier, seed, replay: props_thr.run_property(prop, tier, seed, replay=replay)
